@@ -39,3 +39,84 @@ theorem lineColLoop_spec (rest : List Char) : ∀ (pre : List Char) (pos offset 
     · simp [hp]
 
 end JmesVerif
+
+namespace JmesVerif
+open Errors Spec
+
+theorem lineCol_spec (expr : List Char) (offset : Nat) :
+    lineCol expr offset = (lineOf (charsBefore expr 0 offset), colOf (charsBefore expr 0 offset)) := by
+  have := lineColLoop_spec expr [] 0 offset
+  simpa [lineCol, lineOf, colOf] using this
+
+theorem charsBefore_prefix (pre suf : List Char) : ∀ pos : Nat,
+    charsBefore (pre ++ suf) pos (pos + Lexer.utf8Len pre) = pre := by
+  induction pre with
+  | nil =>
+    intro pos
+    cases suf <;> simp [charsBefore, Lexer.utf8Len]
+  | cons c cs ih =>
+    intro pos
+    have hpos : 0 < c.utf8Size := Char.utf8Size_pos c
+    simp only [List.cons_append, charsBefore, Lexer.utf8Len]
+    have : pos < pos + (c.utf8Size + Lexer.utf8Len cs) := by omega
+    simp only [this, if_true]
+    have e : pos + (c.utf8Size + Lexer.utf8Len cs) = (pos + c.utf8Size) + Lexer.utf8Len cs := by omega
+    rw [e, ih]
+
+/-- insert `ins` after the `n`-th (0-based) newline of a text, if there is one -/
+def insertAfterLine (ins : List Char) : Nat → List Char → Option (List Char)
+  | _, [] => none
+  | n, c :: cs =>
+    if c = '\n' then
+      (if n = 0 then some (c :: (ins ++ cs)) else (insertAfterLine ins (n - 1) cs).map (c :: ·))
+    else (insertAfterLine ins n cs).map (c :: ·)
+
+theorem locLoop_after (line column : Nat) : ∀ (cs : List Char) (cur : Nat), line < cur →
+    locLoop line column cs cur true = (cs, true) := by
+  intro cs
+  induction cs with
+  | nil => intro cur _; simp [locLoop]
+  | cons c cs ih =>
+    intro cur h
+    simp only [locLoop]
+    by_cases hc : c = '\n'
+    · have h1 : ¬ (cur + 1 = line + 1) := by omega
+      simp only [hc, if_true, h1, if_false, ih (cur + 1) (by omega)]
+    · simp [hc, ih cur h]
+
+theorem locLoop_spec (line column : Nat) : ∀ (cs : List Char) (cur : Nat), cur ≤ line →
+    locLoop line column cs cur false =
+      match insertAfterLine (caret column) (line - cur) cs with
+      | some r => (r, true)
+      | none => (cs, false) := by
+  intro cs
+  induction cs with
+  | nil => intro cur _; simp [locLoop, insertAfterLine]
+  | cons c cs ih =>
+    intro cur h
+    simp only [locLoop, insertAfterLine]
+    by_cases hc : c = '\n'
+    · simp only [hc, if_true]
+      by_cases he : cur = line
+      · subst he
+        simp [locLoop_after cur column cs (cur + 1) (by omega)]
+      · have h1 : ¬ (cur + 1 = line + 1) := by omega
+        have h2 : ¬ (line - cur = 0) := by omega
+        simp only [h1, h2, if_false]
+        rw [ih (cur + 1) (by omega)]
+        have : line - (cur + 1) = line - cur - 1 := by omega
+        rw [this]
+        cases insertAfterLine (caret column) (line - cur - 1) cs <;> simp
+    · simp only [hc, if_false]
+      rw [ih cur h]
+      cases insertAfterLine (caret column) (line - cur) cs <;> simp
+
+/-- **Rendered location**: the expression text with the caret line (`column` spaces, `^`) inserted
+right after line `line`; if the text has no such line break, a newline and the caret line are appended. -/
+theorem errorLocation_spec (expr : List Char) (line column : Nat) :
+    errorLocation expr line column =
+      (insertAfterLine (caret column) line expr).getD (expr ++ '\n' :: caret column) := by
+  simp only [errorLocation, locLoop_spec line column expr 0 (Nat.zero_le _), Nat.sub_zero]
+  cases insertAfterLine (caret column) line expr <;> simp
+
+end JmesVerif
